@@ -67,3 +67,13 @@ Definition cred_set_ident (o : option cred) (i : bytes) : option cred := o.     
 (* for m in stack: r = ..; if r: return r   ...  return None *)
 Fixpoint for_first {X R} (l : list X) (body : X -> option R) : option R :=
   match l with [] => None | x :: t => match body x with Some r => Some r | None => for_first t body end end.
+
+(* ---- env.py: os.environ is a list of (name, value) pairs, str.upper a parameter --------------------------------- *)
+Definition env_dict_get (env : list (bytes * bytes)) (k : bytes) (d : option bytes) : option bytes :=   (* os.environ.get(k, d) *)
+  match assocb k env with Some v => Some v | None => d end.
+Fixpoint py_join (sep : bytes) (l : list bytes) : bytes :=                                   (* sep.join(l) *)
+  match l with [] => [] | [x] => x | x :: t => x ++ sep ++ py_join sep t end.
+Definition opt_str (o : option bytes) : bytes := match o with Some v => v | None => [] end.
+Definition str_truthy (s : bytes) : bool := negb (bytes_eqb s []).
+Definition optstr_truthy (o : option bytes) : bool := match o with Some s => str_truthy s | None => false end.
+Definition py_split_comma (s : bytes) : list bytes := split_commas s.                     (* s.split(',') *)
